@@ -31,6 +31,7 @@ RULE += (' Also: tee sources failing once at their k-th use (the fetching child 
 RULE += (' Also: iterators drawn from async iterables are owned by the tool that drew them.')
 RULE += (' Also: end-of-iteration exceptions raised by user callables or thrown in by the consumer.')
 RULE += (' Also: a class-based source that reports its remaining length (sized shortcuts still own and close it).')
+RULE += (' Also: one of several inputs whose __aiter__ fails (cannot be opened).')
 RULE += (' Also: one of several inputs that is not iterable at all - the tool that reports it has ended and lets go of the others; groupby keys failing with Stop(Async)Iteration / GeneratorExit / RuntimeError.')
 RULE += (' Also: class sources whose aclose is a plain method handing back a future-like close job.')
 RULE += (' Also: adapters that offer aclose only once they were advanced are closed when the tool ends.')
@@ -197,9 +198,11 @@ def run_iter(case, stats):
     # one of several inputs is not iterable at all (a value handed over by mistake): whenever the tool - created and
     # advanced like any other - reports that, it has ended and lets go of the inputs it was given
     if len(flav) >= 2 and tool != "chain_from_iterable":
-        for p in range(len(flav)):
+        for p, kind in itertools.product(range(len(flav)), ("not_iterable", "unopenable")):
+            # ("unopenable": an async iterable whose __aiter__ itself fails - the refusal comes when the tool asks for
+            # the iterator, possibly before it has taken charge of the inputs it was given earlier)
             bad = list(flav)
-            bad[p] = "not_iterable"
+            bad[p] = kind
             try:
                 side = run_async_side(spec, flavours=bad, fn_flavours=fnfl, log=False, outer_flavour=outer,
                                       steps=spec.get("steps"), close_after=True)
@@ -208,7 +211,22 @@ def run_iter(case, stats):
                 continue
             if side.term and side.term[0] == "raise" and side.term[1] == "TypeError" and side.handle is not None:
                 stats["not_iterable_argument_runs"] += 1
-                judge(side, ("notiterable", p), True, bad)
+                if kind == "not_iterable":
+                    judge(side, ("notiterable", p), True, bad)
+                else:
+                    # two mechanisms, two keys: inputs handed over BEFORE the one that cannot be opened (the tool may hold
+                    # their iterators already) and inputs AFTER it (the tool has not looked at them yet)
+                    leaked, _ = _leaks(side, spec, bad, outer)
+                    for name, keep in (("unopenable-inputs-before", [x for x in leaked if x < p]),
+                                       ("unopenable-inputs-after", [x for x in leaked if x > p])):
+                        if keep:
+                            stats["leaks_seen"] += 1
+                            viols.append({"key": f"{tool}/leak-on-{name}",
+                                          "msg": f"{head} flavours {bad}: input {p} cannot be opened (its __aiter__ raises); "
+                                                 f"the tool raised {side.term[1]} at its first step and inputs {keep} are "
+                                                 f"neither closed nor exhausted", "detail": {"scenario": [name, p], "leaked": keep}})
+                    evals += 1
+                    stats["scn_unopenable"] += 1
     # early close after j items
     top = min(nout + 1, 6) if tool != "cycle" else 5
     for j in range(0, top + 1):
